@@ -22,6 +22,9 @@ RULE = ('states = histories over {write(file, content_i), touch(file), '
         'of a new Enforcer on the same directory; no exception.  '
         'Supplementary: long histories from all concatenations of 5-step '
         'motifs.  non-trivial = history with >=1 file edit and >=1 observe.')
+RULE += (
+         ' One registered default (svc:ref) refers by rule: to a policy the'
+         ' files redefine.')
 ASSUMPTIONS = [
     'modification times strictly increase with every file operation (the '
     'property says each change advances modification times)',
@@ -33,9 +36,9 @@ ASSUMPTIONS = [
 ]
 
 ROLES = ['dp', 'do', 'dn', 'dold', 'cn', 'cn2', 'cold', 'm1', 'mx', 'm2', 'mold', 'a1', 'a2',
-         'anew', 'b1', 'e1', 'ex']
+         'anew', 'b1', 'e1', 'ex', 'rr']
 PROBE_NAMES = ['svc:plain', 'svc:over', 'svc:new', 'svc:old', 'svc:extra',
-               'svc:chg']
+               'svc:chg', 'svc:ref']
 CONTENTS = {
     'main': {'c1': {'svc:over': 'role:m1', 'svc:extra': 'role:mx'},
              'c2': {'svc:over': 'role:m2', 'svc:old': 'role:mold'},
@@ -202,6 +205,8 @@ def defaults(P):
     return [
         P.RuleDefault('svc:plain', 'role:dp'),
         P.RuleDefault('svc:over', 'role:do'),
+        # a default that REFERS to rules the files redefine
+        P.RuleDefault('svc:ref', 'rule:svc:over or role:rr'),
         P.RuleDefault('svc:new', 'role:dn',
                       deprecated_rule=P.DeprecatedRule(
                           'svc:old', 'role:dold', deprecated_reason='r',
